@@ -11,6 +11,9 @@ Streams
       duplicate old terms, palindromic tuples;
   (t) repeated extension with the same fragment and shared offsets (`offsets = a.extend_types(b)`, then twice
       `a.extend(b, offsets)`): two disjoint copies of the fragment's terms with identical types;
+  (L) larger fragments: |other| 9..16, |self| >= |other|, identity maps that cover all but 2..4 atoms of other, the
+      unmapped indices spread over low (< 8) and high (>= 8) positions, with terms that touch the unmapped atoms
+      (the order in which the few new atoms are appended, and where the terms land, only shows here);
   (m) malformed maps (non-injective values, key / value outside the arrays): model-vs-code only.
 
 The oracle works on canonical dumps only and never looks at the model.
@@ -28,7 +31,8 @@ RULE = ("pairs (self, other) of random consistent Atoms (1..3 atoms quick / 1..4
         "EVERY injective partial identity map; up to 9 / 13 atoms for the random streams), all four term kinds, "
         "coefficient tables present or absent, extra columns on atoms and terms with overlapping / disjoint labels; "
         "offsets default, explicit zero, or those returned by extend_types; override stream with forward / reversed / "
-        "permuted listings, duplicate and palindromic terms; twice-extension with shared offsets. Text resolution is "
+        "permuted listings, duplicate and palindromic terms; twice-extension with shared offsets; larger fragments "
+        "(9..16 atoms, all but 2..4 mapped, unmapped indices both below and above 8, terms on the unmapped atoms). Text resolution is "
         "demanded only where it is defined (per kind: self's coefficient table covers all ids self uses, or other "
         "brings no table; pair table complete or absent on other's side). Non-trivial = distinct input in which other "
         "has at least one term and (the map is non-empty or an existing term is superseded).")
@@ -319,6 +323,42 @@ def with_override(rng, a, b):
     return _norm(a), _norm(b), mp
 
 
+def large_fragment_case(rng):
+    """|other| 9..16 with nearly all atoms mapped; the 2..4 unmapped ones lie both below and at/above index 8 and carry
+    terms (among themselves and to mapped atoms)"""
+    nb = rng.randint(9, 16)
+    na = rng.randint(nb, nb + 4)
+    a, b = pair_of(rng, na, nb)
+    b = copy.deepcopy(b)
+    k = rng.randint(2, 4)
+    nlow = rng.randint(1, k - 1)
+    nhigh = min(k - nlow, nb - 8)
+    un = sorted(rng.sample(range(0, 8), nlow) + rng.sample(range(8, nb), nhigh))
+    keys = [i for i in range(nb) if i not in un]
+    vals = rng.sample(range(na), len(keys))
+    mp = [[x, v] for x, v in zip(keys, vals)]
+    rng.shuffle(mp)
+
+    def add(kind, tup, tag):
+        ids = [t["ty"] for t in b["terms"][kind]]
+        top = len(b["types"][kind]) or (max(ids) + 1 if ids else 1)
+        b["terms"][kind].append({"a": list(tup), "ty": rng.randrange(top),
+                                 "x": ["%s%d" % (tag, i) for i in range(len(b["xlabels"][kind]))]})
+    m1, m2 = rng.sample(keys, 2)
+    order = list(un)
+    rng.shuffle(order)
+    add("bond", [order[0], order[1]], "U")
+    add("bond", [m1, order[-1]], "V")
+    add("angle", [order[0], m1, order[1]], "W")
+    if len(order) >= 3:
+        add("angle", [order[2], order[0], order[1]], "X")
+        add("dihedral", [order[0], order[1], order[2], m2], "Y")
+    else:
+        add("dihedral", [m1, order[0], order[1], m2], "Y")
+    add("improper", [order[-1], m1, m2, order[0]], "Z")
+    return a, _norm(b), mp
+
+
 def offsets_choice(rng, a, b, i):
     """0: default, 1: explicit zero ('ids already shared'), 2: the offsets extend_types returns (applied to its result)"""
     return [None, "zero", "types"][i % 3]
@@ -369,6 +409,10 @@ def cases(ctx):
             continue
         made += 1
         out.append(("o", make_case(w[0], w[1], w[2], offsets_choice(rng, w[0], w[1], made))))
+    # (L) larger fragments, nearly all atoms mapped
+    for s in range(ctx.n(80, 600)):
+        a, b, mp = large_fragment_case(rng)
+        out.append(("L", make_case(a, b, mp, offsets_choice(rng, a, b, s))))
     return out
 
 
